@@ -131,8 +131,22 @@ func runV4(tr *vh.Trace, sc int, ops []op, ihl int) {
 			n := o.hi - o.lo + o.tail
 			payload := fill(o.key, fi, o.lo, n)
 			sent = append(sent, sentFrag{o.key, fi, o.lo, o.lo + n})
-			in := &layers.IPv4{Version: 4, IHL: uint8(ihl), TOS: 3, Length: uint16(ihl*4 + n), Id: uint16(100 + o.key), TTL: 61,
-				Protocol: layers.IPProtocolUDP, SrcIP: []byte{10, 0, 0, byte(o.key)}, DstIP: []byte{10, 0, 0, 99},
+			// two datagrams are different as soon as ONE component of (source, destination, id) differs: the
+			// scenarios rotate through the ways key 2 differs from key 1
+			id, src, dst := uint16(100+o.key), []byte{10, 0, 0, byte(o.key)}, []byte{10, 0, 0, 99}
+			switch sc % 4 {
+			case 1: // same addresses, another id
+				src = []byte{10, 0, 0, 1}
+			case 2: // same id and destination, another source
+				id = 101
+			case 3: // same id, opposite direction
+				id = 101
+				if o.key != 1 {
+					src, dst = []byte{10, 0, 0, 99}, []byte{10, 0, 0, byte(o.key - 1)}
+				}
+			}
+			in := &layers.IPv4{Version: 4, IHL: uint8(ihl), TOS: 3, Length: uint16(ihl*4 + n), Id: id, TTL: 61,
+				Protocol: layers.IPProtocolUDP, SrcIP: src, DstIP: dst,
 				FragOffset: uint16(o.lo / 8)}
 			if ihl == 6 {
 				in.Options = []layers.IPv4Option{{OptionType: 1, OptionLength: 1}, {OptionType: 1, OptionLength: 1}, {OptionType: 1, OptionLength: 1}, {OptionType: 0, OptionLength: 1}}
